@@ -48,7 +48,7 @@ def parseOp (toks : List String) : Option Op :=
   | ["link", i, names] =>
     let ifc : Option Iface := match i with
       | "interp" => some .interp | "gen" => some .gen | "lazy" => some .lazy | _ => none
-    let ns : List Name := if names == "-" then [] else names.toList.map (·.toNat - 97)
+    let ns : List Name := if names == "-" || names == "0" then [] else names.toList.map (·.toNat - 97)
     some (.link ifc (fun n => if ns.contains n then some (200 + n) else none))
   | ["call"] => some .call
   | _ => none
@@ -69,13 +69,15 @@ partial def loop (h : IO.FS.Stream) (st : State) : IO Unit := do
   | [] => loop h st
   | ["reset"] => IO.println "reset"; loop h init
   | _ =>
-    if st.err.isSome then loop h st
+    if st.fatal then loop h st
     else match parseOp toks with
       | none => IO.println s!"bad op {line.trimAscii.toString}"; loop h st
       | some op =>
+        -- `st.err` is kept `none` here after a failed link (no operation of the model reads `err`,
+        -- only the guard of `step` does), so that `render` shows the outcome of THIS call
         let st' := step st op
         IO.println (render op st')
-        loop h st'
+        loop h (if st'.fatal then st' else { st' with err := none })
 
 /-! ### `spec` mode: what the property statement (through `lastDef`) demands, per operation.
 `any` = the statement does not say (malformed module text; a function replacing a non-function). -/
@@ -106,7 +108,12 @@ def specStep (st : SpecSt) (op : Op) : SpecSt × String :=
   | .link ifc res =>
     let pend := (pendingModsR r).map (·.1)
     let bad := (pendingR r).any fun n => (wanted r res n).isNone
-    if bad then ({ st with stop := true }, "err MIR_undeclared_op_ref_error")
+    if bad then
+      -- a failed link is not the end: it has registered what the resolver answered for the imports
+      -- that come before the first unresolvable one, and leaves the modules in the queue
+      let pre := (pendingR r).takeWhile fun n => (wanted r res n).isSome
+      let res' : Resolver := fun n => if pre.contains n then res n else none
+      ({ st with r := .link none res' :: r }, "err MIR_undeclared_op_ref_error")
     else
       let vals := fun (imps : List Name) => imps.map fun n => (n, ((wanted r res n).map Def.value).getD 0)
       let line := String.join (st.mods.map fun m =>
